@@ -147,18 +147,30 @@ func typeNeedsParentheses(t Type, parentPrecedence TypePrecedence) bool {
 	// Optional type wrapping function type or authorized reference type needs parentheses,
 	// e.g. (fun(): Int)? or (auth(E) &T)?
 
-	if parentPrecedence != TypePrecedenceOptional {
-		return false
+	switch parentPrecedence {
+	case TypePrecedenceOptional:
+		switch t := t.(type) {
+		case *FunctionType:
+			return true
+		case *ReferenceType:
+			return t.Authorization != nil
+		}
+
+	case TypePrecedenceReference:
+		// Reference to an unauthorized reference type needs parentheses, &(&T):
+		// `&&` is lexed as the logical-and operator
+		if t, ok := t.(*ReferenceType); ok {
+			return t.Authorization == nil
+		}
+
+	case TypePrecedenceInstantiation:
+		// Instantiation of a function type needs parentheses, (fun(): T)<U>:
+		// fun(): T<U> instantiates the return type
+		_, ok := t.(*FunctionType)
+		return ok
 	}
 
-	switch t := t.(type) {
-	case *FunctionType:
-		return true
-	case *ReferenceType:
-		return t.Authorization != nil
-	default:
-		return false
-	}
+	return false
 }
 
 // NominalType represents a named type
